@@ -67,9 +67,9 @@ void lemma_CompoundParser(void)
   g_n = n; g_scan_ok = ok; s[1] = 0;
   for (i = 0; i < NMAXEL; i++) {
     int z; double c;
-    __CPROVER_assume(z >= 1 && z <= MENDEL_MAX && (i == 0 || z > g_el[i - 1]) && c > 0.0 && c < 1e6);
+    __CPROVER_assume(z >= 1 && z <= MENDEL_MAX && (i == 0 || z > g_el[i - 1]) && c >= 1e-6 && c < 1e6);   /* assumed scanner contract: counts in [1e-6, 1e6) */
     g_el[i] = z; g_cnt[i] = c;
-    if (i < n) __CPROVER_assume(!__CPROVER_isnand(AtomicWeight_arr[z]) && AtomicWeight_arr[z] < 1000.0);   /* TABLES_WF: atomic weights are numbers below 1000 (audited) */
+    if (i < n) __CPROVER_assume(!__CPROVER_isnand(AtomicWeight_arr[z]) && AtomicWeight_arr[z] < 1000.0 && (!(AtomicWeight_arr[z] > 0.0) || AtomicWeight_arr[z] >= 1.0));   /* TABLES_WF: atomic weights are absent (<= 0) or in [1, 1000) (audited) */
     if (i < n && !(AtomicWeight_arr[z] > 0.0)) weightless = 1;
   }
   g_fail = 0; g_locale = 1;
@@ -109,3 +109,46 @@ void lemma_CompoundParser_null(void)
   __CPROVER_assert(CompoundParser(NULL, &e) == NULL && e != NULL && g_fail == 1 && g_locale == 1, "NULL formula: NULL, one error, locale untouched");
   __CPROVER_assert(0, "CANARY null formula");
 }
+
+/* ------------------------------------------------------------------ add_compound_data (bounded shapes NA_EL x NB_EL) */
+#ifdef LEMMA_ADD
+#ifndef NA_EL
+#define NA_EL 2
+#define NB_EL 2
+#endif
+void qsort(void *base, size_t n, size_t sz, int (*cmp)(const void *, const void *))
+{   /* assumed libc contract in executable form: sorted permutation of exactly the range passed */
+  int *v = (int *)base, t; size_t i, j;
+  __CPROVER_assert(sz == sizeof(int), "qsort is called on the int element list");
+  for (i = 1; i < n; i++) for (j = i; j > 0; j--) if (cmp(&v[j - 1], &v[j]) > 0) { t = v[j - 1]; v[j - 1] = v[j]; v[j] = t; }
+}
+void lemma_add_compound_data(void)
+{
+  int ea[NA_EL], eb[NB_EL]; double fa[NA_EL], fb[NB_EL], na[NA_EL], nb[NB_EL];
+  struct compoundData A, B, *r;
+  double wA, wB;
+  int i, j, k, uniq = NA_EL;
+  for (i = 0; i < NA_EL; i++) { int z; __CPROVER_assume(z >= 1 && z <= MENDEL_MAX && (i == 0 || z > ea[i - 1])); ea[i] = z; }
+  for (i = 0; i < NB_EL; i++) { int z; __CPROVER_assume(z >= 1 && z <= MENDEL_MAX && (i == 0 || z > eb[i - 1])); eb[i] = z; }
+  A.nElements = NA_EL; A.Elements = ea; A.massFractions = fa; A.nAtoms = na;
+  B.nElements = NB_EL; B.Elements = eb; B.massFractions = fb; B.nAtoms = nb;
+  for (j = 0; j < NB_EL; j++) { int in_a = 0; for (i = 0; i < NA_EL; i++) if (ea[i] == eb[j]) in_a = 1; if (!in_a) uniq++; }
+  r = add_compound_data(A, wA, B, wB);
+  __CPROVER_assert(r != NULL && r->nElements == uniq, "combining two compositions yields exactly the union of their elements");
+  for (k = 0; k < NA_EL + NB_EL; k++) if (k < r->nElements) {
+    int z = r->Elements[k], in_a = 0, in_b = 0; double e = 0.0;
+    __CPROVER_assert(k == 0 || z > r->Elements[k - 1], "the combined elements are strictly ascending");
+    for (i = 0; i < NA_EL; i++) if (ea[i] == z) in_a = 1;
+    for (j = 0; j < NB_EL; j++) if (eb[j] == z) in_b = 1;
+    __CPROVER_assert(in_a || in_b, "every combined element comes from one of the two compositions");
+    /* fraction = wA x fA + wB x fB over the entries of A and B with this atomic number (A first when it is at least as long as B) */
+    if (NA_EL >= NB_EL) { for (i = 0; i < NA_EL; i++) if (z == ea[i]) e += fa[i] * wA; for (j = 0; j < NB_EL; j++) if (z == eb[j]) e += fb[j] * wB; }
+    else { for (j = 0; j < NB_EL; j++) if (z == eb[j]) e += fb[j] * wB; for (i = 0; i < NA_EL; i++) if (z == ea[i]) e += fa[i] * wA; }
+    __CPROVER_assert(__CPROVER_equal(r->massFractions[k], e), "combined mass fraction = wA x fA + wB x fB");
+  }
+  for (i = 0; i < NA_EL; i++) { int f = 0; for (k = 0; k < NA_EL + NB_EL; k++) if (k < r->nElements && r->Elements[k] == ea[i]) f = 1; __CPROVER_assert(f, "every element of the first composition is in the result"); }
+  for (j = 0; j < NB_EL; j++) { int f = 0; for (k = 0; k < NA_EL + NB_EL; k++) if (k < r->nElements && r->Elements[k] == eb[j]) f = 1; __CPROVER_assert(f, "every element of the second composition is in the result"); }
+  FreeCompoundData(r);
+  __CPROVER_assert(0, "CANARY add_compound_data end");
+}
+#endif
